@@ -56,6 +56,7 @@ type Engine struct {
 	recDepth      int
 	debugQ        bool
 	ghostDecls    map[string]*Sort
+	typeOfTag     map[int]types.Type
 	debugN        int
 	litCache      map[string][]literalRow
 	pkgOfFile     map[*ContractFile]string
@@ -346,8 +347,23 @@ func (E *Engine) typeTag(t types.Type) *Term {
 	if !ok {
 		id = len(E.typeTags) + 1
 		E.typeTags[k] = id
+		if E.typeOfTag == nil {
+			E.typeOfTag = map[int]types.Type{}
+		}
+		E.typeOfTag[id] = t
 	}
 	return IntC(int64(id))
+}
+
+// dynamicType: the concrete type of an interface value whose tag is a known constant.
+func (E *Engine) dynamicType(v Val) types.Type {
+	if v.T == nil || len(v.L) != 2 || !v.L[0].IsConst() {
+		return nil
+	}
+	if _, isI := v.T.Underlying().(*types.Interface); !isI {
+		return nil
+	}
+	return E.typeOfTag[int(v.L[0].C.Int64())]
 }
 
 func (E *Engine) typeTagByName(pkgPath, name string) *Term {
